@@ -120,8 +120,9 @@ theorem shift_equivariant (d : ℝ) (r : Row ℝ) :
 
 /-! ## 2. The same for `LoadHistogram` (class mids) -/
 
-/-- range/mean matrix: upper − lower = 2·amplitude, (upper + lower)/2 = mean; scaling by `f ≥ 0` (pandas rejects
-a negative factor: the interval bounds would be inverted) scales amplitude and mean, shifting moves only the mean. -/
+/-- range/mean matrix: upper − lower = 2·amplitude, (upper + lower)/2 = mean; scaling by any factor `f` scales
+amplitude and mean (the statement has no hypothesis on the sign of `f`; in the code only `f ≥ 0` is reachable, pandas
+rejects a negative factor because the interval bounds would be inverted), shifting moves only the mean. -/
 theorem histogram_rm_consistency (c : RMClass ℝ) (f d : ℝ) :
     rmUpper c - rmLower c = 2 * rmAmplitude c ∧ (rmUpper c + rmLower c) / 2 = rmMean c ∧
     rmAmplitude (rmScale f c) = f * rmAmplitude c ∧ rmMean (rmScale f c) = f * rmMean c ∧
